@@ -5,7 +5,7 @@ import Mathlib.Combinatorics.SimpleGraph.Acyclic
 import Mathlib.Combinatorics.SimpleGraph.Metric
 import CspuzModel.Spec.GraphSpec
 import CspuzModel.Spec.Certs
-namespace Cspuz.Proofs.C09
+namespace Cspuz.Proofs.C09L2
 open Cspuz Cspuz.Spec
 
 /-! ### Lists -/
@@ -355,4 +355,4 @@ theorem forest_cert_iff (g : Graph) (act : Nat → Bool) (hwf : g.wf = true) (hl
     Nonempty (ForestCert g act) ↔ EdgesForest g act :=
   ⟨fun ⟨c⟩ => forest_of_cert c hwf hlf, cert_of_forest hwf hlf⟩
 
-end Cspuz.Proofs.C09
+end Cspuz.Proofs.C09L2
